@@ -1,6 +1,6 @@
 # Edited by hand as coverage grows; consumed by mkmanifest.py.
 NOTYET = "not claimed in this revision: the functions this property depends on are not yet under contract (work in progress, see DESIGN.md section 9)"
-for _p in ["C01","C02","C03","C04","C05","C06","C07","C08","C09","C10","C11","C13","C14","C15","C16","C18","C19","C20"]:
+for _p in ["C01","C02","C03","C04","C06","C07","C08","C09","C10","C11","C13","C14","C15","C16","C18","C19","C20"]:
     na(_p, NOTYET)
 na("C12", "tree equality across archive/tar, compress/gzip and the OS has no contract-level statement within reach of a function-modular verifier; the oras-go code in between is almost entirely calls into those libraries (DESIGN.md section 9, C12)")
 
@@ -8,3 +8,8 @@ claim("C17",
   "Unbounded proof of named obligations on the real retry transport: attempts bounded by the policy's stop point, a request with a one-shot body is never re-sent, every re-send starts from a fresh GetBody() body, no attempt after cancellation, clamp of GenericPolicy.Retry for arbitrary Backoff/Predicate values.",
   "Assumed: contracts of net/http.RoundTripper, context.Context, time.Timer (specs/std.spec); user callbacks (Predicate, Backoff, Policy factory, GetBody) do not mutate the request or policy; wall-clock pacing and timers are not modelled; integers mathematical with wrap-around abstraction.",
   "DESIGN.md section 9 C17")
+
+claim("C05",
+  "Unbounded proof on the real verifying reader and its users: VerifyReader keeps its representation invariant (remaining + delivered = descriptor size, remaining >= 0); Verify returns nil only after exactly Size bytes were delivered, EOF was confirmed on the underlying stream and the digest verifier agreed; ReadAll / ioutil.CopyBuffer return nil only for a matched stream; cas.Memory stores a value only after that.",
+  "Assumed: contracts of io.LimitedReader, io.TeeReader, io.ReadFull, io.CopyBuffer, go-digest Verifier and sync.Map (specs/std.spec); reading the wrapped stream does not re-enter the VerifyReader (explicit `assume` in Verify); byte contents are tracked by count, not by value; hash functions are opaque. OCI/file store publication steps are covered under C10/C06 as they come under contract.",
+  "DESIGN.md section 9 C05")
